@@ -324,6 +324,13 @@ class Env:
                 if not bad:
                     o.ok += 1
                     continue
+                if len(e.p) == 1 and len(bad) == 1:
+                    (m, c), = e.p.items()
+                    if c == 1 and len(m) == 1 and m[0][1] == 1 and S.A.kind[m[0][0]] == 'var':
+                        # the entry is never written: it keeps whatever the storage held (its declared value in a
+                        # live Problem) -- not a dependence on history
+                        o.ok += 1
+                        continue
                 # does the value really change with the havoc variable?
                 a = S.A.by_key[('var', bad[0])]
                 dd = S.diff(e, a)
@@ -480,22 +487,30 @@ class Handle:
             v.init(n, a)
         return v
 
-    def compute(self, ins, havoc=None, method="compute"):
+    def out_store(self):
+        """a live output storage initialised as OpenMDAO does (declared values); pass it to successive compute calls"""
+        if self.env.sym:
+            return self.csx.out_container()
+        return sx._NativeVec({n: np.array(np.broadcast_to(self.csx.default[n], self.shape[n]), dtype=float)
+                              for n in self.out_names})
+
+    def compute(self, ins, havoc=None, method="compute", outs=None):
         self.env.functions.add("%s.%s" % (self.fq, method))
         if self.env.sym:
             self._convert_attrs()
             vec = self._symvec(ins)
             before = {n: vec[n].copy() for n in self.in_names}
-            outs = self.csx.compute(vec, havoc=havoc)
+            outs = self.csx.compute(vec, outs=outs, havoc=havoc)
             self.last_frame = [(n, idx) for n in self.in_names for idx in np.ndindex(*self.shape[n])
                                if vec[n][idx] is not before[n][idx] and not S.iszero(vec[n][idx] - before[n][idx])]
             if self.first_call is None:
                 self.first_call = (ins, {k: np.array(v, dtype=object) for k, v in outs.items()}, list(S.PATH.taken))
-            return dict(outs)
+            return {k: np.array(v, dtype=object).view(S.SymArray) for k, v in outs.items()}
         vals = {n: np.array(np.broadcast_to(np.asarray(ins[n], dtype=float), self.shape[n])) for n in self.in_names}
         before = {n: v.copy() for n, v in vals.items()}
-        outs = sx._NativeVec({n: np.array(np.broadcast_to(self.csx.default[n], self.shape[n]), dtype=float)
-                              for n in self.out_names})
+        if outs is None:
+            outs = sx._NativeVec({n: np.array(np.broadcast_to(self.csx.default[n], self.shape[n]), dtype=float)
+                                  for n in self.out_names})
         if havoc:
             for n in self.out_names:
                 outs[n][...] = self.env.var("%s<%s>" % (havoc, n), self.shape[n])
@@ -506,7 +521,7 @@ class Handle:
             self.comp.compute(nins, outs)
         self.last_frame = [(n, idx) for n in self.in_names for idx in np.ndindex(*self.shape[n])
                            if vals[n][idx] != before[n][idx]]
-        return dict(outs)
+        return {k: np.array(v) for k, v in outs.items()}
 
     def partials(self, ins, prev=None):
         """run the real compute_partials; returns the Jacobian container (use .dense((of, wrt)))"""
